@@ -203,27 +203,38 @@ def check_queue(ctx, out):
             if any((t.get("res") or "") in flushers for bi, t in b.calls()) and not any(callee_matches(t, r"Iterator>?::next$") for bi, t in b.calls()):
                 flushers.add(b.id)
                 changed = True
-    # the hunk loop
+    # the hunk loop (as written, or with the per-hunk helper looked through: the flush may be the helper's last step)
     found = 0
-    for b in diff_bodies(ctx):
-        cfg = cfg_of(b)
-        for h, blocks, next_bb in util.loop_of_next(ctx, b, r"^[^(]*into_iter\(PatchedFile::hunks\("):
+    for b0 in diff_bodies(ctx):
+        views = [b0]
+        if b0.promoted is None and b0.kind in ("Fn", "AssocFn"):
+            views.append(ctx.inl(b0, skip=lambda cb: cb.id in flushers, tag="hunk-flush"))
+        verdicts = []
+        for b in views:
+            cfg = cfg_of(b)
+            for h, blocks, next_bb in util.loop_of_next(ctx, b, r"^[^(]*into_iter\(PatchedFile::hunks\("):
+                region = util.iter_region(b, next_bb) | set(blocks)
+                inner = [hh for hh in cfg.loops() if hh != h and hh in blocks]
+                inner_blocks = set()
+                for hh in inner:
+                    inner_blocks |= cfg.loops()[hh]
+                flush_sites = {bi for bi, t in b.calls() if (t.get("res") or "") in flushers and bi in region and bi not in inner_blocks}
+                sw = cfg.succ[next_bb][0]
+                some = util.switch_arms(b, sw).get(1)
+                outside = (set(range(cfg.n)) - region) | flush_sites | {h}
+                r = cfg.reach(some, avoid=outside)
+                verdicts.append(not (any(h in cfg.succ[x] for x in r) or not flush_sites))
+            if verdicts and all(verdicts):
+                break
+            if b is not views[-1]:
+                verdicts = []
+        if verdicts:
             found += 1
-            region = util.iter_region(b, next_bb) | set(blocks)
-            inner = [hh for hh in cfg.loops() if hh != h and hh in blocks]
-            inner_blocks = set()
-            for hh in inner:
-                inner_blocks |= cfg.loops()[hh]
-            flush_sites = {bi for bi, t in b.calls() if (t.get("res") or "") in flushers and bi in region and bi not in inner_blocks}
-            sw = cfg.succ[next_bb][0]
-            some = util.switch_arms(b, sw).get(1)
-            outside = (set(range(cfg.n)) - region) | flush_sites | {h}
-            r = cfg.reach(some, avoid=outside)
-            if any(h in cfg.succ[x] for x in r) or not flush_sites:
-                out.viol("C01.hunk", "C01.hunk|no-flush|%s" % b.id, ctx.where(b),
-                         "there is a path through one iteration of the hunk loop that does not flush the deleted-line queue after the hunk's lines: removed lines at the end of a hunk would be lost or paired with added lines of a later hunk")
-            else:
+            if all(verdicts):
                 n += 1
+            else:
+                out.viol("C01.hunk", "C01.hunk|no-flush|%s" % b0.id, ctx.where(b0),
+                         "there is a path through one iteration of the hunk loop that does not flush the deleted-line queue after the hunk's lines: removed lines at the end of a hunk would be lost or paired with added lines of a later hunk")
     if not found:
         out.viol("C01.hunk", "C01.hunk|no-hunk-loop", "-",
                  "no loop over `PatchedFile::hunks()` found in the diff parser: the per-hunk flush of pending deleted lines cannot be established")
@@ -246,7 +257,8 @@ def check_units(ctx, out):
             if rv["k"] == "agg" and rv.get("agg") == "adt" and rv.get("path") in ("std::ops::Range", "std::ops::RangeInclusive"):
                 for op in rv["ops"]:
                     labs = ctx.prov.read_operand(b, op)
-                    charish = any(l[0] != "const" and any(f in l[2] for f in ("new_index", "new_len", "old_index", "old_len")) for l in labs)
+                    charish = any(l[0] != "const" and any(f in l[2] for f in ("new_index", "new_len", "old_index", "old_len")) for l in labs) \
+                        or P.has_call(labs, r"similar::(types::)?DiffOp::(as_tag_tuple|new_range|old_range)$")
                     if not charish:
                         continue
                     conv = P.has_call(labs, r"Index<.*>>::index$|ops::Index::index$") and P.has_call(labs, r"<impl str>::char_indices$")
